@@ -41,7 +41,7 @@ Inductive ntree : Type :=
 | NPre (id : nat) (d : definition) (tok : nat) (arg : ntree)
 | NSuf (id : nat) (d : definition) (tok : nat) (arg : ntree)
 | NBin (id : nat) (d : definition) (tok : option nat) (l r : ntree)
-| NGroup (id : nat) (tok : nat) (inner : ntree).
+| NGroup (b : bkind) (id : nat) (tok : nat) (inner : ntree).
 
 Fixpoint erase (t : ntree) : rtree :=
   match t with
@@ -49,30 +49,30 @@ Fixpoint erase (t : ntree) : rtree :=
   | NPre _ d k a => RPre d k (erase a)
   | NSuf _ d k a => RSuf d k (erase a)
   | NBin _ d k l r => RBin d k (erase l) (erase r)
-  | NGroup _ k a => RGroup k (erase a)
+  | NGroup b _ k a => RGroup b k (erase a)
   end.
 
 Definition nid (t : ntree) : nat :=
   match t with
-  | NAtom i _ _ | NPre i _ _ _ | NSuf i _ _ _ | NBin i _ _ _ _ | NGroup i _ _ => i
+  | NAtom i _ _ | NPre i _ _ _ | NSuf i _ _ _ | NBin i _ _ _ _ | NGroup _ i _ _ => i
   end.
 
 (* ---- open frames of the right spine, innermost first ---- *)
 Inductive frame : Type :=
 | FBin (id : nat) (d : definition) (tok : option nat) (l : ntree)   (* [l d _]: right operand pending *)
 | FPre (id : nat) (d : definition) (tok : nat)                      (* [d _] *)
-| FGroup (id : nat) (tok : nat).                                    (* [( _]: an open bracket *)
+| FGroup (b : bkind) (id : nat) (tok : nat).                       (* [( _] or [{ _]: an open bracket *)
 
 Definition frame_def (f : frame) : definition :=
-  match f with FBin _ d _ _ | FPre _ d _ => d | FGroup _ _ => D_Group end.
+  match f with FBin _ d _ _ | FPre _ d _ => d | FGroup b _ _ => bdef b end.
 Definition frame_id (f : frame) : nat :=
-  match f with FBin i _ _ _ | FPre i _ _ | FGroup i _ => i end.
+  match f with FBin i _ _ _ | FPre i _ _ | FGroup _ i _ => i end.
 
 Definition plug (f : frame) (t : ntree) : ntree :=
   match f with
   | FBin i d k l => NBin i d k l t
   | FPre i d k => NPre i d k t
-  | FGroup i k => NGroup i k t
+  | FGroup b i k => NGroup b i k t
   end.
 
 Fixpoint close (fs : list frame) (t : ntree) : ntree :=
@@ -85,7 +85,7 @@ Fixpoint close (fs : list frame) (t : ntree) : ntree :=
    waiting for) iff the table says so; otherwise the frame is closed first *)
 Definition stays_below (d : definition) (f : frame) : bool :=
   match f with
-  | FGroup _ _ => true            (* an open bracket is never closed by an operator *)
+  | FGroup _ _ _ => true          (* an open bracket is never closed by an operator *)
   | _ => match ref_rank (frame_def f) with
          | Some q => inside d q
          | None => false
@@ -98,15 +98,16 @@ Fixpoint pop (d : definition) (fs : list frame) (t : ntree) : list frame * ntree
   | f :: r => if stays_below d f then (fs, t) else pop d r (plug f t)
   end.
 
-(* a closing bracket closes every frame above the innermost open bracket, and the bracket *)
-Fixpoint close_group (fs : list frame) (t : ntree) : option (list frame * ntree) :=
+(* a closing bracket closes every frame above the innermost open bracket, and the bracket
+   if it is of the same kind *)
+Fixpoint close_group (b : bkind) (fs : list frame) (t : ntree) : option (list frame * ntree) :=
   match fs with
   | [] => None
-  | FGroup i k :: r => Some (r, NGroup i k t)
-  | f :: r => close_group r (plug f t)
+  | FGroup b' i k :: r => if bkind_eqb b' b then Some (r, NGroup b' i k t) else None
+  | f :: r => close_group b r (plug f t)
   end.
 
-Definition is_fgroup (f : frame) : bool := match f with FGroup _ _ => true | _ => false end.
+Definition is_fgroup (f : frame) : bool := match f with FGroup _ _ _ => true | _ => false end.
 
 (* the definition a value node stores: an identifier directly to the right of the access
    operator `.` is stored as Property *)
@@ -138,9 +139,9 @@ Definition spine_step (it : item) (n : nat) (st : spine_state) : option spine_st
       | Some _ => let '(fs', t') := pop d fs t in Some (fs', Some (NSuf n d k t'))
       | None => None
       end
-  | IOpen k, (fs, None) => Some (FGroup n k :: fs, None)
-  | IClose _, (fs, Some t) =>
-      match close_group fs t with
+  | IOpen b k, (fs, None) => Some (FGroup b n k :: fs, None)
+  | IClose b _, (fs, Some t) =>
+      match close_group b fs t with
       | Some (fs', t') => Some (fs', Some t')
       | None => None
       end
@@ -148,7 +149,7 @@ Definition spine_step (it : item) (n : nat) (st : spine_state) : option spine_st
   end.
 
 Definition next_index (it : item) (n : nat) : nat :=
-  match it with IClose _ => n | _ => S n end.
+  match it with IClose _ _ => n | _ => S n end.
 
 Fixpoint spine_run (its : list item) (n : nat) (st : spine_state) : option spine_state :=
   match its with
@@ -167,29 +168,30 @@ Definition spine_insert (its : list item) : option ntree :=
   end.
 
 (* ---- (2) operator expressions of any length: values, prefix, suffix and binary
-   operators (every token of each class), round brackets nested to any depth, whitespace
-   anywhere between tokens.  [after]: an operand has just been completed; [spaced]:
-   whitespace seen since the last significant token; [depth]: open brackets.  A value, a
+   operators (every token of each class), round brackets `( )` and nested-expression
+   brackets `{ }` nested to any depth and properly matched, whitespace anywhere between
+   tokens.  [after]: an operand has just been completed; [spaced]: whitespace seen since the
+   last significant token; [depth]: the open brackets, innermost first.  A value, a
    prefix operator or an opening bracket directly after a completed operand is only
    allowed across whitespace (the implicit space list). ---- *)
-Fixpoint opexpr_from (toks : list token_type) (after spaced : bool) (depth : nat) : bool :=
+Fixpoint opexpr_from (toks : list token_type) (after spaced : bool) (depth : list bkind) : bool :=
   match toks with
-  | [] => after && negb spaced && Nat.eqb depth 0
+  | [] => after && negb spaced && match depth with [] => true | _ => false end
   | t :: r =>
     match ref_kind t with
     | KSpace => opexpr_from r after true depth
     | KValue => (negb after || spaced) && opexpr_from r true false depth
     | KPrefix => (negb after || spaced) && opexpr_from r false false depth
-    | KOpen => (negb after || spaced) && opexpr_from r false false (S depth)
+    | KOpen b => (negb after || spaced) && opexpr_from r false false (b :: depth)
     | KBinary => after && opexpr_from r false false depth
     | KSuffix => after && opexpr_from r true false depth
-    | KClose => after && match depth with S d => opexpr_from r true false d | O => false end
+    | KClose b => after && match depth with b' :: d => bkind_eqb b' b && opexpr_from r true false d | [] => false end
     | KOther => false
     end
   end.
 
 Definition operator_expression (toks : list token_type) : bool :=
   match toks with
-  | t :: _ => negb (is_space_tok t) && opexpr_from toks false false 0
+  | t :: _ => negb (is_space_tok t) && opexpr_from toks false false []
   | [] => false
   end.
